@@ -3,6 +3,6 @@ CONSTANTS
   MaxDepth = 6
   RetryOnce = TRUE
   RememberENOENT = FALSE
-  UnmaskedViaOpenTree = FALSE
+  UnmaskedViaOpenTree = TRUE
 INVARIANTS HandlesBounded MissingIsENOENT ExistingIsFound VisibleToPrivilegedIsFound
 CHECK_DEADLOCK FALSE
